@@ -84,10 +84,23 @@ class MGen:
 
     def mlit(self, v):
         txt = str(v)
-        return {"k": "lit", "v": float(v), "toks": [txt], "coq": "MLit %s" % cfloat(v)}
+        toks = [txt]
+        # a scalar operand may be written in (redundant, also nested) parentheses: (2) * vector(3)   (D27)
+        r = self.rng.random()
+        if r < 0.15:
+            toks = ["(", txt, ")"]
+        elif r < 0.2:
+            toks = ["(", "(", txt, ")", ")"]
+        return {"k": "lit", "v": float(v), "toks": toks, "coq": "MLit %s" % cfloat(v)}
 
     def mbin(self, op, l, r, retbool=False):
-        wrap = lambda x: {"k": "par", "e": x, "coq": x["coq"]} if x["k"] == "bin" else x
+        def wrap(x):
+            if x["k"] != "bin":
+                return x
+            x = {"k": "par", "e": x, "coq": x["coq"]}
+            if self.rng.random() < 0.2:          # redundant nested parentheses must not change what evaluates
+                x = {"k": "par", "e": x, "coq": x["coq"]}
+            return x
         return {"k": "bin", "op": op, "l": wrap(l), "r": wrap(r), "mod": {"bool": retbool},
                 "coq": "MBin %s %s (%s) (%s)" % (BOP[op], cbool(retbool), l["coq"], r["coq"])}
 
